@@ -391,6 +391,17 @@ fn main() {
             let r = cal.is_holiday(&gf);
             report("case", "d1", "get_calendar_by_name(\"fed\").is_holiday(1970-03-27)  [Good Friday 1970]", &format!("{}", r), "false", !r);
         }
+        // replay of a calendar query: calq <name> <yyyy-mm-dd>
+        "calq" => {
+            let name = args.get(2).map(|s| s.as_str()).unwrap_or("");
+            let ds = args.get(3).map(|s| s.as_str()).unwrap_or("1970-01-01");
+            let p: Vec<i32> = ds.split('-').map(|x| x.parse().unwrap_or(1)).collect();
+            let d = ndt(p[0], p[1] as u32, p[2] as u32);
+            match rateslib::calendars::get_calendar_by_name(name) {
+                Ok(cal) => println!("{{\"calendar\":\"{}\",\"date\":\"{}\",\"is_holiday\":{},\"is_bus_day\":{}}}", name, ds, cal.is_holiday(&d), cal.is_bus_day(&d)),
+                Err(_) => println!("{{\"calendar\":\"{}\",\"error\":\"name does not resolve\"}}", name),
+            }
+        }
         "probe" => {
             let func = args.get(2).map(|s| s.as_str()).unwrap_or("");
             let found = probe_dateroll(func) || probe_months(func) || probe_dual::probe(func) || probe_curves::probe(func);
